@@ -144,7 +144,14 @@ func (l *Lexer) bracesToken(tok token.TokenType, literal string) token.Token {
 
 func (l *Lexer) illegalToken() token.Token {
 	l.tokenBegins()
-	return l.newToken(token.ILLEGAL, string(l.char))
+
+	char := l.char
+
+	// skip the illegal character, so the lexer always moves
+	// forward and eventually reaches the end of the input
+	l.readChar()
+
+	return l.newToken(token.ILLEGAL, string(char))
 }
 
 func (l *Lexer) directiveToken() token.Token {
